@@ -66,7 +66,7 @@ FamComplete ==
                 n \in AllN, m \in {1, 2}, vb \in {"mid"}, vs \in {"zero", "one", "mid", "max"}, js \in {1, 2},
                 ps \in {"none", "zero", "lt", "eq"}, sd \in {0, 1}, mode \in Modes }
       S3 == { One(Member(n, t, 1, 1, "mid", "mid", 0, "lt", "lt", 0, sd, lb, rng), mode) :
-                n \in {2, 64}, t \in 1..6, sd \in {0, 1}, lb \in {0, 1},
+                n \in {2, 64}, t \in 1..6, sd \in {0, 1}, lb \in {0, 1, 2},
                 rng \in {"chacha", "zero", "const", "ctr", "p2"}, mode \in {"VerifyOnly", "RecoverAndVerify"} }
       \* openings whose blinding factors are all zero at one position (value 0 then gives the identity as commitment)
       S4 == { One([Member(n, t, m, m, "mid", vs, js, "none", ps, js, IF m = 1 THEN sd ELSE 0, 0, "chacha") EXCEPT !.zb = js], mode) :
@@ -103,7 +103,7 @@ MutSet(t, k) ==
   \cup { [kind |-> "bytes", slot |-> "none", j |-> 0, how |-> h] : h \in {"trailing1", "trailing32", "truncate1", "truncate32"} }
 VChanges(mb) ==
      { [mb.v EXCEPT !.proms[j] = Prom(pc, mb.vals[j], mb.n)] : j \in 1..mb.m, pc \in {"none", "zero", "lt", "eq", "gt", "max", "over", "umax"} }
-  \cup { [mb.v EXCEPT !.label = 1 - mb.label] }
+  \cup { [mb.v EXCEPT !.label = 1 - mb.label], [mb.v EXCEPT !.label = 2] }
   \cup { [mb.v EXCEPT !.pgH = 1] }
   \cup { [mb.v EXCEPT !.pgG = kk] : kk \in 1..mb.t }
   \cup { [mb.v EXCEPT !.commit = "rand", !.cj = j] : j \in 1..mb.m }
@@ -226,7 +226,7 @@ FamBind ==
       ScalMut(b) == { [kind |-> "scalar", slot |-> sl, j |-> 0, how |-> h] : sl \in {"r1", "s1"}, h \in {"rand", "plus1"} }
                \cup { [kind |-> "scalar", slot |-> "d1", j |-> kk, how |-> h] : kk \in 0..(b[2]-1), h \in {"rand", "plus1"} }
       VFirst(mb) ==
-           { <<[mb.v EXCEPT !.label = 1 - mb.label], 1>>, <<[mb.v EXCEPT !.pgH = 1], 1>> }
+           { <<[mb.v EXCEPT !.label = 1 - mb.label], 1>>, <<[mb.v EXCEPT !.label = 2], 1>>, <<[mb.v EXCEPT !.pgH = 1], 1>> }
         \cup { <<[mb.v EXCEPT !.pgG = kk], 1>> : kk \in 1..mb.t }
         \cup { <<[mb.v EXCEPT !.commit = "rand", !.cj = j], 1>> : j \in 1..mb.m }
         \cup { <<[mb.v EXCEPT !.proms[j] = Prom(pc, mb.vals[j], mb.n)], IF PVal(Prom(pc, mb.vals[j], mb.n)) = PVal(mb.proms[j]) THEN 0 ELSE 1>> : j \in 1..mb.m, pc \in {"none", "zero", "eq", "max"} }
